@@ -1,10 +1,91 @@
 /- line-protocol handlers for Model/HandVar.lean.  All commands are prefixed `hv.`. -/
 import FontVerif.Model.HandVar
+import FontVerif.Drv.C01Iter
 namespace FontVerif.Drv.C01HandVar
 open FontVerif FontVerif.ReadIter FontVerif.HandRead FontVerif.HandVar
 
+def fnv := Drv.C01Iter.fnv
+def u16OfInt (v : Int) : Nat := (v % 65536).toNat
+def u32OfInt (v : Int) : Nat := (v % 4294967296).toNat
+
+def errStr : VErr → String
+  | .oob => "eO"
+  | .nullOffset => "eN"
+  | .invalidFormat n => s!"eF{n}"
+  | .malformed => "eM"
+  | .invalidIndex i => s!"eI{i}"
+  | .metricMissing => "eT"
+
+def optStr : Option Nat → String
+  | some v => toString v
+  | none => "trap"
+
+def tupDigest (v : List Int) : String := s!"{v.length}.{fnv (v.map u16OfInt)}"
+
+def tupRStr : TupR → String
+  | .none => "n"
+  | .trap => "trap"
+  | .some v => tupDigest v
+
+def tup2RStr : Tup2R → String
+  | .none => "n"
+  | .trap => "trap"
+  | .some a b => s!"{tupDigest a}+{tupDigest b}"
+
+def joinBar (xs : List String) : String := " | ".intercalate xs
+
+/-- one `TupleVariation` as the harness renders it -/
+def renderTuple (p : TVD) (isPoint : Bool) (coords : List Int) (t : TV) : String :=
+  let pk := match t.peak p with | none => "trap" | some v => tupDigest v
+  let is_ := tupRStr t.hdr.interStartTuple
+  let ie := tupRStr t.hdr.interEndTuple
+  let sc := match t.computeScalar p coords with
+    | .trap => "trap" | .err e => errStr e | .ok none => "n" | .ok (some v) => toString v
+  let f32 := match t.computeScalarF32 p coords with
+    | .trap => "trap" | .err e => errStr e | .ok b => if b then "s" else "n"
+  let all := match t.hasDeltasForAllPoints p with | none => "trap" | some b => if b then "1" else "0"
+  let pts := match t.pointsAndDeltas p with
+    | none => "trap"
+    | some (pd, _) => s!"{pointCount pd}.{fnv ((runTake (ptNext pd) ptFuel 300 (ptInit pd)).getD [])}"
+  let ds := match t.deltasTrace p isPoint with
+    | none => "fuel"
+    | some evs =>
+      if trapped evs then "trap"
+      else
+        let its := items evs
+        s!"{its.length}.{fnv (its.flatMap (fun (x : Nat × Int × Int) => [x.1, u32OfInt x.2.1, u32OfInt x.2.2]))}"
+  s!"{pk}:{is_}:{ie}:{sc}:{f32}:{all}:{pts}:{ds}"
+
+/-- a `TupleVariationData`: count bits, shared points, the tuples, `active_tuples_at` -/
+def renderTvd (p : TVD) (isPoint : Bool) (coords : List Int) : String :=
+  let sp := match p.sharedPts with | none => "-" | some d => toString (pointCount d)
+  match tvTrace p with
+  | none => "fuel"
+  | some evs =>
+    if trapped evs then "trap"
+    else
+      let ts := items evs
+      let act := ts.filterMap (fun t => match t.computeScalar p coords with | .ok (some v) => some (u32OfInt v) | _ => none)
+      joinBar ([s!"{p.countBits} {sp} {ts.length} a{act.length}.{fnv act}"] ++ ts.map (renderTuple p isPoint coords))
+
 def handle (cmd : String) (args : List String) : Option String :=
   match cmd, args with
+  | "hv.tvhdr", [ac, hex] =>
+    match ac.toNat?, parseHex? hex with
+    | some ac, some d =>
+      match tvhRead d ac with
+      | none => some "eO"
+      | some h =>
+        some s!"{optStr h.size} {optStr h.ti} {tupRStr h.peakTuple} {tupRStr h.interStartTuple} {tupRStr h.interEndTuple} {tup2RStr h.interTuples}"
+    | _, _ => none
+  | "hv.cvar", ac :: hex :: coords =>
+    match ac.toNat?, parseHex? hex, parseInts? coords with
+    | some ac, some d, some cs =>
+      match cvarVariationData d ac with
+      | .err e => some (errStr e)
+      | .trap => some "trap"
+      | .ok p => some (renderTvd p false cs)
+    | _, _, _ => none
   | _, _ => none
 
 end FontVerif.Drv.C01HandVar
